@@ -285,3 +285,17 @@ declare void @h() #2
 attributes #0 = { noreturn "noreturn" nounwind "nounwind" }
 attributes #1 = { "a=b" "a"="b" }
 attributes #2 = { "k=x"="y" "k"="x=y" }
+;;; ATOM func/empty-quoted-names
+%"" = type { i32 }
+@"" = global %"" zeroinitializer
+define void @f(i32 %"") {
+"":
+  ret void
+}
+define i32 @h(i32 %"") {
+"":
+  %"" = add i32 %0, 1
+  br label %3
+3:
+  ret i32 %2
+}
